@@ -50,7 +50,7 @@ class SeismicFileConverter(object):
         self.check_input_file_exists()
 
         self.geom = None
-        if all([min_il, max_il, min_xl, max_xl]):
+        if all(bound is not None for bound in [min_il, max_il, min_xl, max_xl]):   # 0 is a perfectly good bound
             self.geom = Geometry3d(min_il, max_il, min_xl, max_xl)
         if self.geom is None:
             with SeismicFile.open(self.in_filename, self.filetype) as seismic:
@@ -73,6 +73,9 @@ class SeismicFileConverter(object):
     def get_blank_header_info(self, seismic, header_detection):
         first_il_header_val = seismic.header[0][segyio.tracefield.TraceField.INLINE_3D]
         n_traces = seismic.tracecount if seismic.structured or first_il_header_val == 0 else 0
+        if seismic.structured and not self.is_2d:
+            # A window keeps only some of the source traces, header arrays hold one value per trace kept
+            n_traces = len(self.geom.ilines) * len(self.geom.xlines)
         if header_detection == 'heuristic':
             return HeaderwordInfo(n_traces=n_traces,
                                   seismicfile=seismic,
